@@ -15,6 +15,7 @@ import (
 	"encoding/json"
 	"fmt"
 	"os"
+	"regexp"
 	"sort"
 	"strconv"
 	"strings"
@@ -76,6 +77,34 @@ func vRunArmed(hist []VEntry, e VEntry, script map[int]uint64, clockShift int64)
 	rt.Disarm()
 	rt.SetClockOffset(0)
 	return vC01Run{obs: vObserve(&st, in.Srv), choices: rec.Choices, prefixN: n}
+}
+
+var vThrRe = regexp.MustCompile(` thr=\d+`)
+
+// vRunOnReceivingNode executes the history the way the node does that RECEIVED the client's POSTs: before
+// every client line is applied, the HTTP handler has called ThrottleUntil for the session (several times:
+// a client that posts quickly), with the wall clock just behind the previous message.  Nodes that only
+// apply the log never make these calls; what every node emits has to be the same.  The throttle counter
+// itself is local to the node and masked.
+func vRunOnReceivingNode(hist []VEntry, e VEntry) string {
+	in := VerifNewInst()
+	throttle := func(h VEntry) {
+		if h.Type != robust.IRCFromClient {
+			return
+		}
+		rt.SetFixedNow(h.UnixNano - 1e6) // 1 ms before the entry's timestamp: "posted quickly"
+		for k := 0; k < 10; k++ {
+			in.Srv.ThrottleUntil(h.Session)
+		}
+		rt.SetFixedNow(0)
+	}
+	for _, h := range hist {
+		throttle(h)
+		in.Apply(h)
+	}
+	throttle(e)
+	st := in.Apply(e)
+	return vThrRe.ReplaceAllString(vObserve(&st, in.Srv), " thr=X")
 }
 
 func TestVerifC01(t *testing.T) {
@@ -201,6 +230,11 @@ func TestVerifC01(t *testing.T) {
 		if sh.obs != base.obs {
 			report(sc, hist, e, "result depends on the wall clock ["+cmd+"]", fmt.Sprintf("entry %s: with the clock shifted by +400d the result differs: %s", e.String(), firstDiff(base.obs, sh.obs)))
 		}
+		// the node that received the POSTs (handler-side calls that are not part of the log)
+		if rn := vRunOnReceivingNode(hist, e); rn != vThrRe.ReplaceAllString(base.obs, " thr=X") {
+			report(sc, hist, e, "result depends on which node received the client's POST ["+cmd+"]", fmt.Sprintf("entry %s: on the node whose HTTP handler called ThrottleUntil for the posting sessions the result differs: %s", e.String(), firstDiff(vThrRe.ReplaceAllString(base.obs, " thr=X"), rn)))
+		}
+		res.Executions++
 		// single deviations
 		var devs [][2]uint64
 		for ci := base.prefixN; ci < len(base.choices); ci++ {
